@@ -6,6 +6,7 @@ import Acra.Drv.SpecCh10
 import Acra.Drv.SpecNet
 import Acra.Drv.SpecGolay7
 import Acra.Drv.SpecCh11
+import Acra.Drv.SpecAFDX
 namespace Acra.Drv
 def specFuncs : List Func := List.flatten [
   specFuncsFTI,
@@ -15,6 +16,7 @@ def specFuncs : List Func := List.flatten [
   specFuncsCh10,
   specFuncsNet,
   specFuncsGolay7,
-  specFuncsCh11
+  specFuncsCh11,
+  specFuncsAFDX
 ]
 end Acra.Drv
